@@ -27,7 +27,27 @@ def is_noise_stmt(s: ast.stmt) -> bool:
                 return True
     if isinstance(s, ast.Pass):
         return True
+    # `if <pure test>: <log a message>`: the test decides nothing but whether a message is printed
+    if isinstance(s, ast.If) and s.body and all(is_noise_stmt(b) and not isinstance(b, ast.Delete) for b in s.body + s.orelse) and _pure_test(s.test):
+        return True
     return False
+
+
+_IMPURE_METHODS = {'pop', 'popitem', 'append', 'extend', 'add', 'update', 'remove', 'discard', 'clear', 'insert', 'setdefault', 'sort', 'reverse', 'send', 'write', 'read', 'readline', 'seek', 'close',
+                   'put', 'get_nowait', 'acquire', 'release', 'seed', 'shuffle', '__next__'}
+
+
+def _pure_test(e: ast.AST) -> bool:
+    """the expression can be evaluated without changing anything a rule cares about (no walrus, no yield / await, no call of a mutating method, no next())"""
+    for x in ast.walk(e):
+        if isinstance(x, (ast.NamedExpr, ast.Yield, ast.YieldFrom, ast.Await, ast.Lambda)):
+            return False
+        if isinstance(x, ast.Call):
+            if isinstance(x.func, ast.Attribute) and x.func.attr in _IMPURE_METHODS:
+                return False
+            if isinstance(x.func, ast.Name) and x.func.id in ('next', 'input', 'exec', 'eval', 'setattr', 'delattr', 'open'):
+                return False
+    return True
 
 
 def func_stmts(fn: Func) -> list[ast.stmt]:
